@@ -82,6 +82,7 @@ class LBCheck(BaseCheck):
       classes.add('named-endpoint')
     w = make_world(env, rng, kind, lb_params, open_delay, gs_delay, gs_fail, gs_dups, endpoint_name=named)
     lb, ss = w.lb, w.ss
+    w.close_fails_inflight = rng.random() < 0.4
     for ep in rng.sample(pool, n0):
       ss.truth[ep] = __import__('vlib.lbworld', fromlist=['Member']).Member(ep)
     prof = self.profile(rng, tier)
@@ -445,6 +446,8 @@ class LBCheck(BaseCheck):
         e['type'], e['value'], e['tb'][-400:]), {'exc': e['type']})
     if stats['timeouts']:
       classes.add('complete:timeout')
+    if w.closed_with_inflight:
+      classes.add('close-fails-inflight')
     out.classes = sorted(classes)
     out.nontrivial = stats['dispatches'] > 0 or stats['removals'] > 0 or stats['joins'] > 0
     out.extra = dict(stats)
